@@ -27,7 +27,8 @@ def analyse(ck):
 
     def view(name):
         if name not in views:
-            views[name] = e2.MethodView(ck, "^" + (POOL + name).replace("::", "::") + "$", AGG)
+            # private helpers of ProofPool other than the named anchors are expanded in place (an extracted helper is the same code)
+            views[name] = e2.MethodView(ck, "^" + (POOL + name).replace("::", "::") + "$", AGG, keep={"parse_metadata"})
         return views[name]
 
     # ================================================================ push
@@ -41,7 +42,32 @@ def analyse(ck):
     g_budget = v.rejects("Ge", lambda t: "verifies_in_window" in T.show(t) and (fp(t, "self.verifies_in_window") or (isinstance(t, tuple) and t[0] == "phi")), lambda t: fp(t, "self.limits.max_verifies_per_window"))
     c_verify = v.calls(lambda t: t.get("name") == "verify" and (t.get("impl_adt") or "").endswith("VerifierCircuitData"))
     g_bcap = v.rejects("Ge", lambda t: isinstance(t, tuple) and t[0] == "len" and fp(t[1], "self.buckets"), lambda t: fp(t, "self.limits.max_buckets"))
-    g_dup = v.guards_where(lambda g: P.call_name(g["cond"]) is not None and g["cond"][2].endswith("::any") and g["fail_when"] is True)
+    def exists_guard(g):
+        """(collection, predicate term over ("elem", collection)) when the guard fails iff SOME element of a collection satisfies a
+        predicate: `if c.iter().any(|x| p(x)) { bail }`, or `for x in c { if p(x) { bail } }`"""
+        if g["fail_when"] is not True:
+            return None
+        c = g["cond"]
+        nm = P.call_name(c)
+        if nm and nm.endswith("::any") and len(c[4]) == 2 and isinstance(c[4][1], tuple) and c[4][1][0] == "closure":
+            coll = P.norm(c[4][0])
+            return coll, P.norm(v.fr.closure_ret(c[4][1], [("elem", coll)], site_hint=c[1]))
+        loops = [x[1] for x in v.fr.ctrl_of_block(g["bb"]) if x[0] == "loop" and tuple(x[2]) == ("1",)]
+        for coll in loops:
+            if any(s == ("elem", coll) for s in T.walk(c)):
+                return P.norm(coll), P.norm(c)
+        return None
+
+    def in_index(pred, coll):
+        """pred == self.nullifier_index.contains_key(<the element>)"""
+        if not (P.call_name(pred) or "").endswith("::contains_key") or len(pred[4]) != 2:
+            return False
+        recv = P.norm(pred[4][0])
+        while isinstance(recv, tuple) and recv and recv[0] == "upd":
+            recv = P.norm(recv[2])
+        return (fp(recv, "self.nullifier_index") or "nullifier_index" in T.show(recv, maxdepth=3)) and P.norm(pred[4][1]) == ("elem", coll)
+
+    g_dup = v.guards_where(lambda g: exists_guard(g) is not None and in_index(exists_guard(g)[1], exists_guard(g)[0]))
     sites = {"capacity": g_cap, "parse": c_parse, "dummy-key": g_dummy, "budget": g_budget, "verify": c_verify, "bucket-cap": g_bcap, "duplicate": g_dup}
     for k, hits in sites.items():
         loc = (hits[0]["loc"] if isinstance(hits[0], dict) else body.loc(hits[0][0])) if hits else v.loc0
@@ -54,15 +80,9 @@ def analyse(ck):
         ob.add({"C19"}, g["outcome"] <= {"err"}, "CMP", "push/rejects/" + k, "the `%s` guard's failing edge returns Err (no panic, no fall-through)" % k, g["loc"], sorted(g["outcome"]))
     # duplicate check really consults the nullifier index for every nullifier of the proof
     dupc = sites["duplicate"][0]["cond"]
-    dup_ok = False
-    clos = [a for a in dupc[4] if isinstance(a, tuple) and a[0] == "closure"]
-    if clos:
-        cb = prog.bodies.get(clos[0][1])
-        if cb is not None:
-            dup_ok = any(t.get("name") == "contains_key" for _, t in cb.calls())
-            recv_ok = any(fp(x, "self.nullifier_index") for x in clos[0][2]) or any("nullifier_index" in T.show(x) for x in clos[0][2])
-            src = dupc[4][0]
-            dup_ok = dup_ok and recv_ok and isinstance(src, tuple) and "parse_metadata" in T.show(src)
+    dcoll, dpred = exists_guard(sites["duplicate"][0])
+    # the collection quantified over is the nullifier list of this proof's parsed metadata (component 1 of parse_metadata's result)
+    dup_ok = in_index(dpred, dcoll) and any((P.call_name(s) or "").endswith("parse_metadata") for s in T.walk(dcoll)) and "parse_metadata" in T.show(dcoll) and T.show(dcoll, maxdepth=6).rstrip(")").endswith(".1")
     ob.add({"C19", "C20"}, dup_ok, "TERM", "push/duplicate/predicate", "duplicate rule = any(nullifier of the parsed proof is a key of self.nullifier_index)", sites["duplicate"][0]["loc"], T.show(dupc, maxdepth=5)[:300])
     # bucket-cap bypass for existing buckets
     ck_contains = [g for g in v.gt if False]
@@ -94,6 +114,12 @@ def analyse(ck):
     def ok_block(k):
         h = sites[k][0]
         if isinstance(h, dict):
+            if k == "duplicate":
+                # loop form (`for n in .. { if index.contains_key(n) { bail } }`): the rule has passed when the loop is left
+                for x in v.fr.ctrl_of_block(h["bb"]):
+                    if x[0] == "loop" and tuple(x[2]) == ("1",) and P.norm(x[1]) == exists_guard(h)[0]:
+                        ex = [s for s in cfg.succs(body)[x[3]] if "0" in cfg.switch_edge_value(body, x[3], s)]
+                        return ex[0] if len(ex) == 1 else None
             return v.ok_succ(h)
         return v.call_ok_block(h[0])
 
@@ -162,35 +188,44 @@ def analyse(ck):
             err_after.append((bb, sorted(oc)))
     ob.add({"C19"}, not err_after, "NOERR-AFTER", "push/no-error-after-mutation", "no Err return is reachable once the pool has been mutated (a rejected push leaves the pool unchanged)", v.loc0, err_after)
     # writes before the guards: only the two budget fields
-    early = []
-    for bi, b in enumerate(body.blocks):
-        if b["cleanup"]:
-            continue
-        for s in b["s"]:
-            if "d" in s and s["d"]["l"] == 1 and s["d"]["p"]:
-                names = [p["n"] for p in s["d"]["p"] if isinstance(p, dict) and "f" in p]
-                if names and names[0] not in ("verifies_in_window", "verify_window_started"):
-                    early.append((bi, names))
+    early = [(bi, names) for bi, names in v.self_field_writes() if names[0] not in ("verifies_in_window", "verify_window_started")]
     ob.add({"C19"}, not early, "WMW", "push/direct-field-writes", "push assigns directly only to verifies_in_window and verify_window_started", v.loc0, early)
     # insertion pairing
-    ins = [e for e in muts if e.raw.get("name") == "insert" and "nullifier_index" in (v.receiver_path(e) or T.show(e.args[0]))]
+    # index writes, as (collection, key, effect): `for n in C { index.insert(*n, key) }` or `index.extend(C.iter().map(|n| (*n, key)))`
+    ins = []
+    idx_other = []
+    for e in muts:
+        if "nullifier_index" not in (v.receiver_path(e) or T.show(e.args[0], maxdepth=4)):
+            continue
+        nm_ = e.raw.get("name")
+        lp_ = e2_loops(e)
+        if nm_ == "insert" and len(lp_) == 1 and len(e.args) == 3 and P.norm(e.args[1]) == ("elem", lp_[0]):
+            ins.append((P.norm(lp_[0]), P.norm(e.args[2]), e))
+        elif nm_ == "extend" and not lp_ and isinstance(P.norm(e.args[1]), tuple) and P.norm(e.args[1])[0] == "map":
+            a_ = P.norm(e.args[1])
+            el_ = P.norm(v.fr.elem(a_))
+            if isinstance(el_, tuple) and el_[0] == "tuple" and len(el_[1]) == 2 and P.norm(el_[1][0]) == ("elem", P.norm(a_[1])):
+                ins.append((P.norm(a_[1]), P.norm(el_[1][1]), e))
+            else:
+                idx_other.append(e)
+        else:
+            idx_other.append(e)
     ent = [e for e in muts if e.raw.get("name") == "entry"]
     psh = [e for e in v.effects if e.raw.get("name") == "push" and "or_default" in T.show(e.args[0], maxdepth=6)]
-    ok = len(ins) == 1 and len(ent) == 1 and len(psh) == 1
+    ok = len(ins) == 1 and not idx_other and len(ent) == 1 and len(psh) == 1
     det = None
     if ok:
-        key_i = P.norm(ins[0].args[2])
+        coll_i, key_i = ins[0][0], ins[0][1]
         key_e = P.norm(ent[0].args[1])
-        lp = e2_loops(ins[0])
-        meta_nulls = None
         pushed = P.norm(psh[0].args[1])
-        ok = key_i == key_e and len(lp) == 1
+        ok = key_i == key_e
         if ok and isinstance(pushed, tuple) and pushed[0] == "adt":
             d = dict(pushed[3])
-            ok = P.norm(d.get("nullifiers")) == lp[0] and P.norm(d.get("proof")) == v.param(2)
-            det = {"key": T.show(key_i)[:120], "loop": T.show(lp[0])[:120], "stored": {k: T.show(x)[:80] for k, x in d.items()}}
+            ok = P.norm(d.get("nullifiers")) == coll_i and P.norm(d.get("proof")) == v.param(2)
+            det = {"key": T.show(key_i)[:120], "loop": T.show(coll_i)[:120], "stored": {k: T.show(x)[:80] for k, x in d.items()}}
         else:
             ok = False
+    ins = [x[2] for x in ins]
     ob.add({"C20"}, ok, "PAIR", "push/index-paired-with-proof",
            "push inserts every nullifier of the stored proof into the index under the same key used for buckets.entry, and stores that nullifier list with the proof", ins[0].loc if ins else v.loc0, det)
 
@@ -346,17 +381,47 @@ def analyse(ck):
     okr = len(rmb) == 1 and len(rmi) == 1 and P.norm(rmb[0].args[1]) == mv.param(2)
     if okr:
         lps = e2_loops(rmi[0])
-        okr = len(lps) == 1 and "nullifiers" in T.show(lps[0]) and P.norm(rmi[0].args[1]) == ("elem", lps[0]) and not [c for c in rmi[0].ctrl if c[0] == "case"]
-    rtt = P.norm(mv.fr.return_term())
-    for _ in range(3):
-        if isinstance(rtt, tuple) and rtt and rtt[0] in ("map",) or (P.call_name(rtt) or "").endswith("::map"):
-            if rtt[0] == "map":
-                rtt = P.norm(mv.fr.elem(rtt))
-            else:
-                cl = [a for a in rtt[4] if isinstance(a, tuple) and a and a[0] == "closure"]
-                rtt = P.norm(mv.fr.closure_ret(cl[0], [("elem", rtt[4][0])], site_hint=rtt[1])) if cl else rtt
-    rt = T.show(rtt, maxdepth=8)
-    ob.add({"C20", "C21"}, okr and rt.endswith(".proof") and "remove(self.buckets, key)" in rt, "PAIR", "remove_bucket/paired", "remove_bucket removes the bucket, un-indexes every nullifier of every removed proof unconditionally, and returns the removed proofs", rmb[0].loc if rmb else mv.loc0, rt[:300])
+        # innermost loop: the nullifiers of one removed proof; an enclosing loop (for-form instead of into_iter().map()) walks the removed proofs
+        okr = 1 <= len(lps) <= 2 and "nullifiers" in T.show(lps[-1]) and P.norm(rmi[0].args[1]) == ("elem", lps[-1]) and not [c for c in rmi[0].ctrl if c[0] == "case"]
+        if okr and len(lps) == 2:
+            okr = P.norm(lps[-1]) == ("fld", ("elem", lps[0]), "nullifiers") and T.show(lps[0], maxdepth=6).endswith(".proofs")
+        lps = lps[-1:]
+    def returned_elements(t, depth=0):
+        """element terms of the returned sequence: through Option::map / Iterator::map closures, or the pushes into a locally built Vec
+        (`[]` for an empty Vec: the absent-bucket case)"""
+        t = P.norm(t)
+        if depth > 6 or not isinstance(t, tuple) or not t:
+            return [t]
+        if t[0] == "phi":
+            out_ = []
+            for m_ in t[2]:
+                out_ += returned_elements(m_, depth + 1)
+            return out_
+        if t[0] == "map":
+            return returned_elements(mv.fr.elem(t), depth + 1)
+        nm_ = P.call_name(t) or ""
+        if nm_.endswith("::map") or nm_.endswith("unwrap_or_default"):
+            cl = [a for a in t[4] if isinstance(a, tuple) and a and a[0] == "closure"]
+            if cl:
+                return returned_elements(mv.fr.closure_ret(cl[0], [("elem", t[4][0])], site_hint=t[1]), depth + 1)
+            return returned_elements(t[4][0], depth + 1) if t[4] else [t]
+        if nm_.endswith(("Vec::<T>::new", "Vec::<T>::with_capacity")):
+            items_ = T.contents(mv.effects, t)
+            if all(k_ == "one" and len(e2_loops(e_)) == 1 and not [c for c in e_.ctrl if c[0] == "case"] for k_, _, e_ in items_):
+                return [x_ for _, x_, _ in items_]
+            return [("unk", "vec-built-otherwise")]
+        return [t]
+
+    rels = [T.show(x, maxdepth=8) for x in returned_elements(mv.fr.return_term())]
+    rt = " | ".join(rels)
+    # the un-indexed nullifiers are those of the very element whose proof is returned
+    same_q = False
+    if okr and rels:
+        lq = P.norm(lps[0])
+        q_ = T.show(lq[1], maxdepth=8) if isinstance(lq, tuple) and lq and lq[0] == "fld" and lq[2] == "nullifiers" else None
+        same_q = q_ is not None and all(r_ == q_ + ".proof" for r_ in rels)
+    ob.add({"C20", "C21"}, okr and bool(rels) and same_q and all(r_.endswith(".proof") and "remove(self.buckets, key)" in r_ for r_ in rels), "PAIR", "remove_bucket/paired",
+           "remove_bucket removes the bucket, un-indexes every nullifier of every removed proof unconditionally, and returns the removed proofs", rmb[0].loc if rmb else mv.loc0, rt[:300])
     # snapshot_batch
     mv = view("snapshot_batch")
     muts = [e for f in STATE_FIELDS for e in mv.mutator_effects(f) if e.raw.get("name") not in ("get_mut",)]
@@ -371,7 +436,10 @@ def analyse(ck):
         for s in T.walk(m):
             if s and s[0] == "map":
                 src = T.show(s[1], maxdepth=8)
-                ret_ok = ret_ok or ("proofs" in src and "min" in src and "batch_size" in src and "RangeTo" in src)
+                # the oldest prefix: proofs[..min(len, batch_size)]  or  proofs.iter().take(batch_size)
+                prefix = ("proofs" in src and "min" in src and "batch_size" in src and "RangeTo" in src) or (
+                    isinstance(s[1], tuple) and s[1][0] == "take" and T.show(s[1][1], maxdepth=8).endswith(".proofs") and fp(s[1][2], "self.batch_size"))
+                ret_ok = ret_ok or (prefix and P.norm(mv.fr.elem(s)) == ("fld", ("elem", s[1]), "proof"))
     ob.add({"C21"}, not muts and st_ok, "WMW", "snapshot_batch/effects", "snapshot_batch writes nothing but bucket.last_snapshot_at (no removal, no index change)", mv.loc0, [(e.name, e.loc) for e in muts] + [str(e.args[2])[:80] for e in stores])
     ob.add({"C21"}, ret_ok, "TERM", "snapshot_batch/returns-oldest-prefix", "returns clones of proofs[..min(len, batch_size)] through an order-preserving map (admission order, oldest first)", mv.loc0, rts[:400])
     # bucket_stats
